@@ -87,6 +87,9 @@ func init() {
 					if expr != nil && snap.Err == nil && fresh.Err == nil && TopkAmbiguous(kc, expr, st) {
 						continue
 					}
+					if id := knownDifferential(c, a.Query, st.Dump(), a.Start, a.End, a.Step); id != "" {
+						continue
+					}
 					return violation("%squery %q: the long-lived engine's result differs from a freshly constructed engine's on the same data: %s\nlong-lived: %s\nfresh:      %s\n", hdr(i), a.Query, d, snap, fresh)
 				}
 				if v, ok := lastRun[a.Query]; ok && v != dataVersion {
